@@ -15,6 +15,7 @@ let check_seq (t : toks) : string =
   let cap = next_int t in
   let nops = next_int t in
   let ops = ref [] and obs = ref [] in
+  let extra = ref "" in
   for _ = 1 to nops do
     match next t with
     | "L" ->
@@ -25,6 +26,8 @@ let check_seq (t : toks) : string =
       let n = next_int t in
       let ids = repeat_read n (fun () -> next_n t) in
       ops := LFilter (ow, ty) :: !ops; obs := (ow, ty, ids) :: !obs
+    | "K" -> if next_int t = 0 then extra := "ORACLE C20.filter_result_changed_by_a_later_call"
+    | "H" -> extra := "ORACLE C20.filter_never_returned"
     | x -> failwith ("bad op " ^ x)
   done;
   let ops = List.rev !ops and obs = List.rev !obs in
@@ -47,6 +50,7 @@ let check_seq (t : toks) : string =
                  (ids_str (spec_filter (nat_of_int cap) !logged ow ty)) (List.length !logged)
          | [] -> failwith "obs underflow")) ops;
   if !verdict <> "OK" then !verdict
+  else if !extra <> "" then !extra
   else begin
     (* correspondence: model results vs implementation results *)
     let rec cmp ms os k =
